@@ -270,3 +270,66 @@ def precision_pin(ctx):
         ok = bool(sinks) and all(roles.canon(a, defs).replace(" ", "") == "'double'" for a in sinks)
         uses_desc = any(isinstance(n, ast.Attribute) and n.attr == "precision" and unparse(n.value) == "operator_descriptor" for n in ast.walk(fn))
         r.check(ok and not uses_desc, qn, rel, qn, fn.lineno, "precision pin in " + qn, "computation precision is not pinned to 'double' (or operator_descriptor.precision is read)")
+
+
+# ---------------------------------------------------------------- parameters are read when an object is built, not when it is used
+
+
+PARAM_GROUPS = {"quadrature", "fmm", "assembly", "output"}  # attribute groups of DefaultParameters that affect results / files
+
+
+def _escaping_closures(fn):
+    """Nested functions / lambdas of fn that outlive the call: returned, stored, or passed as an argument (a nested def
+    that is only ever called directly inside fn runs while fn runs and is not one of them)."""
+    out = []
+    for sub in ast.walk(fn):
+        if sub is fn:
+            continue
+        if isinstance(sub, ast.Lambda):
+            out.append(sub)
+        elif isinstance(sub, ast.FunctionDef):
+            called = {id(c.func) for c in ast.walk(fn) if isinstance(c, ast.Call) and isinstance(c.func, ast.Name) and c.func.id == sub.name}
+            uses = [n for n in ast.walk(fn) if isinstance(n, ast.Name) and n.id == sub.name and isinstance(n.ctx, ast.Load) and id(n) not in called]
+            if uses:
+                out.append(sub)
+    return out
+
+
+def late_parameter_reads(tree_fn, defs):
+    """[(closure, attribute node)] where an escaping closure of tree_fn reads a result-affecting group of a parameter object."""
+    bad = []
+    for cl in _escaping_closures(tree_fn):
+        for n in ast.walk(cl):
+            if not (isinstance(n, ast.Attribute) and n.attr in PARAM_GROUPS and isinstance(n.ctx, ast.Load)):
+                continue
+            base = roles.canon(n.value, defs).replace(" ", "") if isinstance(n.value, ast.Name) else unparse(n.value)
+            if "parameters" in base.lower():
+                bad.append((cl, n))
+    return bad
+
+
+def late_reads(ctx):
+    r = ctx.rule("FX-LATE-READ", "functions handed out for later use (evaluators, matvec closures, lambdas) read no quadrature / FMM / assembly parameter: what they compute is fixed by the parameter values at the time the object was built", 1)
+    n_closures, n_bad = 0, 0
+    for rel in ctx.repo.py_files("bempp_cl"):
+        m = ctx.repo.mod(rel)
+        for qn, fn in m.functions.items():
+            if "<" in qn:
+                continue
+            cls = _escaping_closures(fn)
+            if not cls:
+                continue
+            n_closures += len(cls)
+            defs = roles.Defs(fn)
+            for cl, n in late_parameter_reads(fn, defs):
+                n_bad += 1
+                name = getattr(cl, "name", "<lambda>")
+                r.fail("%s::%s.%s reads %s" % (rel.rsplit("/", 1)[-1], qn, name, unparse(n)), rel, qn, n.lineno, "late read of `%s` in %s.%s" % (unparse(n), qn, name),
+                       "`%s`, which %s hands out for later use, reads `%s` each time it runs: the values it returns follow changes made to the parameter object (or the global parameters it aliases) after the object was built" % (name, qn, unparse(n)))
+    if n_closures < 30:
+        raise AnalysisError("late reads: only %d escaping closures found in the package" % n_closures)
+    if not n_bad:
+        r.ok("%d escaping closures, none reads a parameter group" % n_closures)
+    pos = ast.parse("def make(space, parameters):\n    w = rule(parameters.quadrature.regular)\n    def evaluator(x):\n        q = rule(parameters.quadrature.regular)\n        return q\n    return evaluator\n").body[0]
+    neg = ast.parse("def make(space, parameters):\n    q = rule(parameters.quadrature.regular)\n    def helper(x):\n        return rule(parameters.quadrature.regular)\n    y = helper(1)\n    def evaluator(x):\n        return q\n    return evaluator\n").body[0]
+    r.must_fire(len(late_parameter_reads(pos, roles.Defs(pos))) == 1 and not late_parameter_reads(neg, roles.Defs(neg)), "evaluator closure reading parameters.quadrature.regular at call time")
